@@ -433,6 +433,22 @@ Lemma nv_c02_guard_incdec_false :
   run_window [] 5 w13 [] [f25] sA = step1 [] 9 (fused (R 13) w13) [] [f25] sA.
 Proof. vm_compute. repeat split; reflexivity. Qed.
 
+(* where a FALSE guard hides a genuine difference (documented in the comment of c02_rules): x++ on a local holding a string
+   (the window re-tags through LOCALSET, LOCALINCDEC does not).  The other candidate, PUSH 0; SUB on the float64 -0.0
+   (-0.0 - 0 = -0.0 but incDec(0) = +0.0), is NOT fused: the generated rule carries the side condition "constant <> 0" *)
+Definition w14z := [mkI c_Push 0 0 0 1; mkI c_Sub 0 0 0 2].
+Lemma remark_c02_guard_false_differs :
+  rule_matches (R 0) w0 = true /\ guard (R 0) w0 [fn_String [65]] [] = false /\
+  ~ sres_equiv (run_window [] 5 w0 [fn_String [65]] [] sA) (step1 [] 9 (fused (R 0) w0) [fn_String [65]] [] sA) /\
+  rule_matches (R 14) w14z = false /\ first_match peephole_rules w14z = None.
+Proof.
+  split; [vm_compute; reflexivity|]. split; [vm_compute; reflexivity|]. split.
+  - assert (E1 : run_window [] 5 w0 [fn_String [65]] [] sA = SNext [mkValue TypeInt32 (Zn 1) PNone] [] sA) by (vm_compute; reflexivity).
+    assert (E2 : step1 [] 9 (fused (R 0) w0) [fn_String [65]] [] sA = SNext [mkValue untypedInt (Zn 1) PNone] [] sA) by (vm_compute; reflexivity).
+    rewrite E1, E2. intros [H | (sl & op & s & [[H1 H2] | [H1 H2]])]; discriminate.
+  - vm_compute. split; reflexivity.
+Qed.
+
 (* rule 15: JUMP 0 -> PASS: the only use of the second disjunct of sres_equiv *)
 Definition w15 := [mkI c_Jump 0 0 0 1].
 Lemma nv_c02_rules_jump0 :
@@ -507,77 +523,23 @@ Lemma nv_c02_first_match :
 Proof. vm_compute. reflexivity. Qed.
 
 
-(* ---------- the link between c02_optimizer_shape and c02_rules (NOT stated in Props/C02.v) ----------
-   opt_rel / do_optimize compute [rule_matches r code] and [fused r code] on the whole remaining SUFFIX [code], while
-   c02_rules speaks about windows of length exactly [rule_len r].  The two fit together because every rule of the table
-   only looks at window positions < rule_len r: *)
-Fixpoint operand_in (n : nat) (o : operand) : bool :=
-  match o with
-  | OZero => true | OField k _ => Nat.ltb k n | ONeg o' => operand_in n o' | OJoin a b => operand_in n a && operand_in n b
-  end.
-Definition cond_in (n : nat) (c : cond) : bool :=
-  match c with CSame i _ j _ => Nat.ltb i n && Nat.ltb j n | CConst i _ _ => Nat.ltb i n | CNotConst i _ _ => Nat.ltb i n end.
-Definition rule_closed (r : rule) : bool :=
-  let n := rule_len r in
-  forallb (cond_in n) (r_conds r) && operand_in n (r_A r) && operand_in n (r_B r) && operand_in n (r_C r) && Nat.ltb (r_pos r) n.
-Lemma rules_closed : forallb rule_closed peephole_rules = true. Proof. vm_compute. reflexivity. Qed.
-
-Lemma win_firstn n : forall k code, (k < n)%nat -> win (firstn n code) k = win code k.
+(* ---------- the link between c02_optimizer_shape and c02_rules ----------
+   Stated in Props/C02.v as c02_shape_meets_rules since the audit (it was proved here first, as nv_window_of_suffix /
+   nv_shape_meets_rules; the proofs moved to Proofs/C02_rules.v window_of_suffix / shape_meets_rules).  Instance: in codeX
+   the optimizer's fusion step at the suffix starting with LOCALGET 0 is an instance of c02_rules, executed. *)
+Lemma nv_shape_meets_rules :
+  let suffix := tl codeX in
+  first_match peephole_rules suffix = Some (R 1) /\
+  fused (R 1) (firstn 3 suffix) = fused (R 1) suffix /\
+  sres_equiv (run_window [] 1 (firstn 3 suffix) [fn_Int 3; fn_Int 4] [] sA) (step1 [] 1 (fused (R 1) suffix) [fn_Int 3; fn_Int 4] [] sA) /\
+  step1 [] 1 (fused (R 1) suffix) [fn_Int 3; fn_Int 4] [] sA = SNext [fn_Int 3; fn_Int 4] [fn_Int 7] sA.
 Proof.
-  unfold win. induction n as [|n IH]; intros k code H; [lia|].
-  destruct code as [|i rest]; [destruct k; reflexivity|]. destruct k as [|k]; [reflexivity|]. cbn. apply IH. lia.
-Qed.
-Lemma eval_operand_firstn n code o : operand_in n o = true -> eval_operand (firstn n code) o = eval_operand code o.
-Proof.
-  induction o as [|k f|o IH|a IHa b IHb]; cbn; intro H.
-  - reflexivity.
-  - apply Nat.ltb_lt in H. rewrite win_firstn by assumption. reflexivity.
-  - rewrite IH by assumption. reflexivity.
-  - apply andb_true_iff in H. destruct H. rewrite IHa, IHb by assumption. reflexivity.
-Qed.
-Lemma cond_ok_firstn n code c : cond_in n c = true -> cond_ok (firstn n code) c = cond_ok code c.
-Proof.
-  destruct c; cbn; intro H; try (apply andb_true_iff in H; destruct H as [H H']; apply Nat.ltb_lt in H');
-    apply Nat.ltb_lt in H; rewrite ?win_firstn by assumption; reflexivity.
-Qed.
-Lemma codes_match_firstn names : forall code, codes_match names (firstn (List.length names) code) = codes_match names code.
-Proof.
-  induction names as [|n ns IH]; intro code; [reflexivity|].
-  destruct code as [|i rest]; [reflexivity|]. cbn. rewrite IH. reflexivity.
-Qed.
-Lemma codes_match_len names : forall code, codes_match names code = true -> (List.length names <= List.length code)%nat.
-Proof.
-  induction names as [|n ns IH]; intros code H; cbn; [lia|].
-  destruct code as [|i rest]; [discriminate|]. cbn in H. apply andb_true_iff in H. destruct H as [_ H]. apply IH in H. cbn. lia.
-Qed.
-Lemma nv_window_of_suffix : forall r, In r peephole_rules -> forall code, rule_matches r code = true ->
-  let w := firstn (rule_len r) code in
-  List.length w = rule_len r /\ rule_matches r w = true /\ fused r w = fused r code.
-Proof.
-  intros r Hr code Hm w.
-  pose proof (proj1 (forallb_forall _ _) rules_closed r Hr) as Hc. unfold rule_closed in Hc.
-  repeat (apply andb_true_iff in Hc; let H := fresh "Hc" in destruct Hc as [Hc H]).
-  unfold rule_matches in Hm. apply andb_true_iff in Hm. destruct Hm as [Hm1 Hm2].
-  split; [|split].
-  - subst w. unfold rule_len. apply firstn_length_le, codes_match_len, Hm1.
-  - unfold rule_matches. subst w. unfold rule_len at 1. rewrite codes_match_firstn, Hm1. cbn [andb].
-    rewrite forallb_forall in *. intros c Hin. rewrite cond_ok_firstn by (apply Hc; assumption). apply Hm2, Hin.
-  - unfold fused. subst w. rewrite !eval_operand_firstn by assumption. rewrite win_firstn by (apply Nat.ltb_lt; assumption). reflexivity.
-Qed.
-Lemma first_match_matches rs : forall w r, first_match rs w = Some r -> rule_matches r w = true.
-Proof.
-  induction rs as [|r0 rs IH]; cbn; intros w r H; [discriminate|].
-  destruct (rule_matches r0 w) eqn:E; [injection H as <-; exact E | apply IH, H].
-Qed.
-(* every fusion step of the optimizer is an instance of c02_rules (under the rule's guard) *)
-Lemma nv_shape_meets_rules : forall code r, first_match peephole_rules code = Some r ->
-  forall codes pc pc' slots ops s, guard r (firstn (rule_len r) code) slots ops = true ->
-  sres_equiv (run_window codes pc (firstn (rule_len r) code) slots ops s) (step1 codes pc' (fused r code) slots ops s).
-Proof.
-  intros code r H codes pc pc' slots ops s G.
-  pose proof (first_match_In _ _ _ H) as Hin. pose proof (first_match_matches _ _ _ H) as Hm.
-  destruct (nv_window_of_suffix r Hin code Hm) as (Hl & Hmw & Hf). rewrite <- Hf.
-  exact (rules r Hin _ Hl Hmw codes pc pc' slots ops s G).
+  cbv zeta.
+  assert (F : first_match peephole_rules (tl codeX) = Some (R 1)) by (vm_compute; reflexivity).
+  destruct (c02_shape_meets_rules my_grow my_get my_set my_len my_getattr my_setattr my_get_key my_set_key _ _ F)
+    as (_ & _ & _ & Hf & Hs).
+  split; [exact F|]. split; [exact Hf|]. split; [|vm_compute; reflexivity].
+  apply Hs. vm_compute. reflexivity.
 Qed.
 
 (* REMARK: no theorem of Props/C02.v lifts the window equivalence to whole runs, and for ARBITRARY code it could not:
